@@ -8,7 +8,7 @@ pub const RULE: &str = "cases: pairs (a, b) of full URIs/IRIs stratified by same
 
 pub const MANDATORY: &[&str] = &["relation:below-base-dir", "relation:above-base-dir", "relation:beside", "relation:is-base-dir", "same_scheme:yes", "same_scheme:no", "same_authority:yes", "same_authority:no"];
 
-const PATHS: &[&str] = &["", "/", "/a", "/a/", "/a/b", "/a/b/", "/a/b/c", "/a/c", "/x", "/a/b/c/d/", "/a//b", "/a/./b", "/a/../b", "//a", "/a/b:c", "/\u{e9}/x", "/a/%62"];
+const PATHS: &[&str] = &["", "/", "/a", "/a/", "/a/b", "/a/b/", "/a/b/c", "/a/c", "/x", "/a/b/c/d/", "/a//b", "/a/./b", "/a/../b", "//a", "/a/b:c", "/\u{e9}/x", "/a/%62", "/caf%E9/menu", "/caf%E9/index", "/%C1%81/c", "/A/d", "/%FF", "/%ff/x"];
 const RPATHS: &[&str] = &["", "a", "a/", "a/b", "a/b/c", "a/c", "x", "..", "../a", "a:b", "a//b", "./a", "a/b/"];
 const PRE: &[&str] = &["s://h", "s://h2", "s:", "t://h", "s://u@h:1", "S://h", "s://H"];
 const SUF: &[&str] = &["", "?q", "#f", "?q#f"];
@@ -58,6 +58,7 @@ pub fn generate(ctx: &mut Ctx) {
         let mut rng = ctx.rng("pair", i);
         let mut o = gen::Opts::new(rng.chance(1, 2));
         o.max_segs = 6;
+        o.bad_pct = rng.chance(1, 4);
         let ha = rng.chance(3, 4);
         let mut p = gen::parts_with(&mut rng, o, true, ha);
         if rng.chance(2, 3) {
